@@ -87,6 +87,13 @@ impl Step {
     fn flush() -> Self {
         Step { kind: "flush".into(), body: Vec::new() }
     }
+
+    /// The operator of the server removes the CA's parent and adds it
+    /// again: the CA's resource class goes away and comes back under the
+    /// next name.
+    fn renumber() -> Self {
+        Step { kind: "renumber".into(), body: Vec::new() }
+    }
 }
 
 /// What the generator needs to know of the server under test.
@@ -411,6 +418,12 @@ impl Gen<'_> {
                 self.valid_cms(e, rng, input)?
             }
             c if c.starts_with("delta_") => self.delta(c, rng, input)?,
+            "updown_revoke_renumbered" if v.chan != "direct"
+                || !self.world.ctx.child =>
+            {
+                // (the scene needs the operator's hand: direct channel)
+                self.updown("updown_revoke_twice", rng, input)?
+            }
             c if c.starts_with("updown_") => self.updown(c, rng, input)?,
             other => return Err(format!("unknown cms class {other}")),
         };
@@ -592,15 +605,33 @@ impl Gen<'_> {
             self.client.child_ca_key
         } else { self.client.spare_ca_key };
         let sender = input.sub.clone();
-        let sign = |this: &Self, rng: &mut Rng, kind: &str|
+        let sign_in = |this: &Self, rng: &mut Rng, kind: &str, class: &str|
             -> Result<Vec<u8>, String>
         {
             this.client.ensure_keys(rng.below(1400));
             let msg = seeds::msg_6492_for_key(
-                kind, this.client, &sender, &class, &key
+                kind, this.client, &sender, class, &key
             )?;
             Ok(this.client.cms_6492(msg, &this.client.child_ki)?.to_vec())
         };
+        let sign = |this: &Self, rng: &mut Rng, kind: &str| {
+            sign_in(this, rng, kind, &class)
+        };
+        if c == "updown_revoke_renumbered" {
+            // a certificate under the class as it is named now; the class
+            // goes away and comes back under the next name; the key is
+            // revoked (or certified again) naming the class of that moment
+            let next = class.parse::<u32>().map(|n| (n + 1).to_string())
+                .unwrap_or_else(|_| class.clone());
+            input.prelude.push(Step::msg(sign(self, rng, "issue")?));
+            input.prelude.push(Step::renumber());
+            let last = if rng.below(4) == 0 { "issue" } else { "revoke" };
+            input.note = format!(
+                "issue in class {class}, class renumbered, {last} naming \
+                 class {next}"
+            );
+            return sign_in(self, rng, last, &next)
+        }
         let (pre, last): (&[&str], &str) = match c {
             "updown_issue_twice" => (&["issue"], "issue"),
             "updown_revoke_issue" => (&["issue", "revoke"], "issue"),
